@@ -275,6 +275,24 @@ def run(tier, seed):
             if n % 800 == 5:
                 run.sample({"xml": r.get("xml"), "source": case["src"]})
             n += 1
+        # generated documents (harness/docgen.py), rendered by TLC; same round trip
+        import json
+        import os
+        import random
+        from . import docgen
+        rng = random.Random(seed * 6007 + 20)
+        ndocs = 400 if tier == "quick" else 8000
+        docs = [docgen.gen_doc(rng, rng.randint(1, 10)) for _ in range(ndocs)]
+        df = os.path.join(work, "docs.json")
+        with open(df, "w") as f:
+            json.dump(docs, f)
+        gres = engine.run_tlc(work, "MC_C03", constants={"MaxTok": 0, "Full": "FALSE"}, init="InitGen", next_="NextGen", env={"DOCS_FILE": df}, timeout=7200)
+        run.add_tlc(gres, "DocCore!RenderDoc on %d generated documents" % ndocs)
+        gen = [{"src": "geometry", "doc": st["doc"], "cfg": st["cfg"], "out": st["out"], "n": 100000 + i, "seed": seed}
+               for i, st in enumerate(engine.read_dump(gres["dump"])) if st["out"]]
+        for case, r in engine.replay("harness.c20", gen, chunk=40):
+            run.record(case, r, key=r.get("xml", str(case["doc"])) + str(case.get("cfg")))
+        run.extra["generated_documents"] = len(gen)
     finally:
         engine.cleanup(work)
     run.rule = ("cases = every %d-th rendering geometry document of MC_C03 (parsed with its caller configuration) and every 3rd paint document of MC_C14, each parsed "
